@@ -221,6 +221,18 @@ func valueSys() *sys {
 				}
 			})
 		}},
+		// an empty update mask writes nothing; an after-interceptor still runs, on a message of its own
+		{name: "Set(#5,empty mask,after edits)", run: func(m *mon, _ context.Context) {
+			arg := tmsg(5)
+			write(m, s, "Set(#5,empty mask,after edits)", arg, func() {
+				res, err := v.Set(arg, resource.WithUpdatePaths(), resource.InterceptAfter(func(old, n proto.Message) {
+					n.(*lib.T).DefaultString = "after"
+				}))
+				if err == nil {
+					m.reg("Set(empty mask) result", res)
+				}
+			})
+		}},
 		{name: "Set(Get(),expectation fails)", run: func(m *mon, _ context.Context) {
 			arg := v.Get()
 			write(m, s, "Set(Get(),expectation fails)", arg, func() {
@@ -291,6 +303,17 @@ func collectionSys() *sys {
 				}))
 				if err == nil {
 					m.reg("Update(a,Get(a)) result", res)
+				}
+			})
+		}},
+		{name: "Update(a,#5,empty mask,after edits)", run: func(m *mon, _ context.Context) {
+			arg := tmsg(5)
+			write(m, s, "Update(a,#5,empty mask,after edits)", arg, func() {
+				res, err := c.Update("a", arg, resource.WithUpdatePaths(), resource.InterceptAfter(func(old, n proto.Message) {
+					n.(*lib.T).DefaultString = "after"
+				}))
+				if err == nil {
+					m.reg("Update(empty mask) result", res)
 				}
 			})
 		}},
@@ -806,6 +829,8 @@ func runPath(c pcase) (key, msg string, names []string) {
 	var m mon
 	res := verifrt.RunOnce(nil, false, func() {
 		s := builders()[c.Sys]()
+		pristine := s.state()
+		comparable := sameList(pristine, builders()[c.Sys]().state()) // (a model that starts from the time of day or from random data has no fixed starting state)
 		ctx, cancel := context.WithCancel(context.Background())
 		defer cancel()
 		for _, oi := range c.Path {
@@ -825,6 +850,28 @@ func runPath(c pcase) (key, msg string, names []string) {
 			m.check(o.name)
 			if m.key != "" {
 				return
+			}
+		}
+		// what a reader was handed (by a read, or as an event) is the reader's: it may write on it. That is no write
+		// to the resource: the stored state stays as it is. (Write RESULTS are left alone here.)
+		// (core resources only: on the trait models a read result can share sub-messages with the model's own
+		// configuration - light presets, waste records - which no write of the library touches; DESIGN, observations)
+		if m.key == "" && (c.Sys == "Value" || c.Sys == "Collection") {
+			before := s.state()
+			for _, t := range m.items {
+				if strings.HasPrefix(t.origin, "Get") || strings.HasPrefix(t.origin, "List") || strings.HasPrefix(t.origin, "Pull") || strings.HasPrefix(t.origin, "Find") || strings.HasPrefix(t.origin, "ActiveMode") {
+					scribble(t.live.ProtoReflect())
+				}
+			}
+			if after := s.state(); !sameList(before, after) {
+				m.fail("read-result-aliases-store after "+strings.Join(names, ";"), fmt.Sprintf("after the readers wrote on the messages they had been handed by reads and events, the stored state went from %v to %v", before, after))
+			}
+		}
+		// "the store" is every store: whatever the callers of this model did to the messages they passed in or got
+		// back, a model built afresh starts as this one did (nothing leaked into what the constructors share)
+		if len(c.Path) > 0 && comparable && !strings.HasPrefix(c.Sys, "rpc:") {
+			if fresh := builders()[c.Sys]().state(); !sameList(fresh, pristine) {
+				m.fail("fresh-instance-differs after "+names[len(names)-1], fmt.Sprintf("a %s constructed now starts as %v; the one constructed before these operations started as %v", c.Sys, fresh, pristine))
 			}
 		}
 	})
